@@ -4,7 +4,11 @@
 SPECIFICATION Spec
 CONSTANTS
   ValidateOnPrint = TRUE
+  EagerType = TRUE
+  MdVariant = "code"
+  AllocaRefresh = "fields"
   MaxCalls = 5
+  Groups = {"globals", "aliases", "ifuncs"}
   MaxPerGroup = 1
   MaxFuncs = 1
   MaxParams = 1
@@ -13,9 +17,17 @@ CONSTANTS
   NewNames = {""}
   SetNames = {"y"}
   InstRes = {"value"}
+  InstOps = {}
+  RefTargets = {}
+  RefGlobals = FALSE
+  FieldEdits = {}
   TermKinds = {"ret"}
+  MaxMd = 0
+  MdExplicit = {}
+  MdAttach = FALSE
   MaxSrc = 2
   TrackQueries = FALSE
+  StickyQueries = FALSE
   Observers = {"PrintModule"}
   EmitFile = "transitions.ndjson"
 VIEW View
